@@ -396,14 +396,19 @@ def commonRange (ampBands : List (List Band)) (dflt : Option Band) : List Band :
     | none => []
   | c0 :: rest => sortBands ((c0 :: rest).foldl intersectBands c0)
 
+/-- first / last slot index whose centre frequency lies inside a band: `ceil((f_min − 193.1e12) / grid)` and
+    `floor((f_max − 193.1e12) / grid)` (band edges rounded inwards, repair d0f17fb2) -/
+def bandLo (f grid : Int) : Int := ceilDiv (f - anchorHz) grid
+def bandHi (f grid : Int) : Int := floorDiv (f - anchorHz) grid
+
 /-- the cells contributed by the common bands after index `prevMax`: unusable up to the band, free inside
-    `[n(f_min), n(f_max)]`; returns the cells and the last index written -/
+    `[bandLo f_min, bandHi f_max]`; returns the cells and the last index written -/
 def bandCells (grid : Int) : Int → List Band → List Cell × Int
   | prevMax, [] => ([], prevMax)
   | prevMax, b :: bs =>
-    let r := bandCells grid (frequencyToN b.2 grid) bs
-    (rep (frequencyToN b.1 grid - prevMax - 1) Cell.unusable ++
-      rep (frequencyToN b.2 grid - frequencyToN b.1 grid + 1) Cell.free ++ r.1, r.2)
+    let r := bandCells grid (bandHi b.2 grid) bs
+    (rep (bandLo b.1 grid - prevMax - 1) Cell.unusable ++
+      rep (bandHi b.2 grid - bandLo b.1 grid + 1) Cell.free ++ r.1, r.2)
 
 /-- `create_oms_bitmap` (the first band is the case `prevMax = n_min − 1` of the loop; `n_max = frequency_to_n(f_max)`,
     repair ec64bb7b) -/
